@@ -107,6 +107,11 @@ Spec == Init /\ [][Next]_vars
 DetectedAsWritten == kind \in {"chain", "named"} => Detect(First6(art)) = art.fmt
 HeadsDistinct == Detect("#SHAPE") # Detect("\\x93NUMPY")
 BoundIsFinite == kind = "chain" => ~QLt(bound, QZero)
+(* a text artefact carries the precision of the step that wrote it: that many decimals are what the next reader sees, and *)
+(* what the half-unit bound above is about (the replay counts the decimals of every value of every text artefact)         *)
+CarriesRequestedPrecision ==
+    (kind = "chain" /\ Len(steps) > 1 /\ steps[Len(steps)].tool \in {"view", "fold"} /\ art.fmt = "text")
+        => art.prec = steps[Len(steps)].prec
 
 Done == closed \/ (kind = "chain" /\ Len(steps) > MaxSteps)
 
